@@ -584,6 +584,11 @@ def _nonempty(seq, defs, fs, idx, resolve=None):
     # lower bound on len(seq) from the dominating facts
     lb = 0
     texts = {(f.text.replace(' ', ''), f.pol) for f in fs}
+    # names that hold len(seq): ``n = len(seq); if n == 1: ...``
+    for nm_, ds_ in defs.items():
+        if len(ds_) == 1 and isinstance(ds_[0], ast.Call) and call_name(ds_[0]) == 'len' and ds_[0].args and src(ds_[0].args[0]) == seq:
+            import re as _re
+            texts |= {(_re.sub(r'(?<![\w.])%s(?![\w(])' % _re.escape(nm_), 'len(%s)' % seq, t_), p_) for t_, p_ in texts}
     for t, pol in texts:
         if (pol and t == seq) or ((not pol) and t == 'not' + seq):
             lb = max(lb, 1)
